@@ -133,9 +133,10 @@ def run(tier):
 
 
 def _literal_of(q):
+    lits = [n["b"] for n in pcheck._subterms(q) if n["k"] == "Lit"]
+    if lits:
+        return ",".join(lits)
     for n in pcheck._subterms(q):
-        if n["k"] == "Lit":
-            return n["b"]
         if n["k"] == "Coll":
             return n["b"]
         if n["k"] == "Root":
